@@ -404,9 +404,10 @@ impl SyntaxTemplate {
                 Some(DatumBody::Vector(new_vec).locate(template.location))
             }
             SyntaxTemplateBody::Identifier(var) => match substitutions.get(var) {
-                Some((_, vec)) => {
+                Some((single_datum, vec)) => {
                     if vec.is_empty() {
-                        None
+                        // a variable with a single match is the same in every repetition
+                        Some(single_datum.clone())
                     } else {
                         vec.get(item_index).cloned()
                     }
@@ -425,6 +426,30 @@ impl SyntaxTemplate {
         })
     }
 
+    // number of items the variables of a template matched beyond the first one
+    fn ellipsis_suffix_len(
+        template: &SyntaxTemplate,
+        substitutions: &HashMap<String, (Datum, Vec<Datum>)>,
+    ) -> usize {
+        match &template.data {
+            SyntaxTemplateBody::Pair(list) => list
+                .clone()
+                .into_pair_iter()
+                .map(|pair_item| Self::ellipsis_suffix_len(&pair_item.get_inside().0, substitutions))
+                .max()
+                .unwrap_or(0),
+            SyntaxTemplateBody::Vector(vec) => vec
+                .iter()
+                .map(|element| Self::ellipsis_suffix_len(&element.0, substitutions))
+                .max()
+                .unwrap_or(0),
+            SyntaxTemplateBody::Identifier(var) => {
+                substitutions.get(var).map_or(0, |(_, vec)| vec.len())
+            }
+            _ => 0,
+        }
+    }
+
     fn substitute_template_element(
         template_element: &SyntaxTemplateElement,
         substitutions: &HashMap<String, (Datum, Vec<Datum>)>,
@@ -432,12 +457,16 @@ impl SyntaxTemplate {
         match template_element {
             SyntaxTemplateElement(sub_template, true) => {
                 let mut result = sub_template.substitude(substitutions)?;
-                let mut suffix_item_index = 0;
-                while let Some(item) =
-                    Self::substitude_ellipsis_item(sub_template, substitutions, suffix_item_index)?
-                {
-                    suffix_item_index += 1;
-                    result.push(item)
+                // the variables with the longest run decide how often the sub-template is repeated
+                for suffix_item_index in 0..Self::ellipsis_suffix_len(sub_template, substitutions) {
+                    match Self::substitude_ellipsis_item(
+                        sub_template,
+                        substitutions,
+                        suffix_item_index,
+                    )? {
+                        Some(item) => result.push(item),
+                        None => break,
+                    }
                 }
                 Ok(result)
             }
